@@ -441,7 +441,7 @@ def minimise(
 
 def write_replay(prop_id: str, bucket: str, case: Any, failure: dict, seed: int, tier: str) -> str:
     h = hashlib.sha1(bucket.encode()).hexdigest()[:12]
-    d = os.path.join(VERIF, "replays", prop_id)
+    d = os.path.join(os.environ.get("LV_REPLAY_DIR") or os.path.join(VERIF, "replays"), prop_id)
     os.makedirs(d, exist_ok=True)
     path = os.path.join(d, f"{h}.json")
     with open(path, "w") as fd:
@@ -621,8 +621,9 @@ def run_property(prop_id: str, tier: str, seed: int) -> int:
         "wall_s": round(time.time() - t0, 2),
         "violations": violations,
     }
-    os.makedirs(os.path.join(VERIF, "evidence"), exist_ok=True)
-    with open(os.path.join(VERIF, "evidence", f"{prop_id}.json"), "w") as fd:
+    evdir = os.environ.get("LV_EVIDENCE_DIR") or os.path.join(VERIF, "evidence")
+    os.makedirs(evdir, exist_ok=True)
+    with open(os.path.join(evdir, f"{prop_id}.json"), "w") as fd:
         json.dump(evidence, fd, indent=1, default=_json_default)
 
     print(
